@@ -102,10 +102,22 @@ class Run:
         self._vdrv = out
         return out
 
-    def drv(self, args, stdin_path=None, timeout=3600, ok_codes=(0,)):
+    def gobin(self, name, tags="verif"):
+        """Builds harness/cmd/<name> (a stand-alone driver binary) against /repo's current tree (with the clock overlay)."""
+        self.vdrv()  # makes sure the overlay exists
+        out = os.path.join(self.work, name)
+        if os.path.exists(out):
+            return out
+        p = subprocess.run(["go", "build", "-overlay", self.overlay, "-tags", tags, "-o", out, "./cmd/" + name],
+                           cwd=HARNESS, env=GOENV, capture_output=True, text=True)
+        if p.returncode != 0:
+            raise Infra("build of %s failed against current /repo tree:\n%s" % (name, p.stdout + p.stderr))
+        return out
+
+    def drv(self, args, stdin_path=None, timeout=3600, ok_codes=(0,), binary=None):
         """Runs a driver sub-command; returns its parsed JSON result (read from -out file)."""
         outp = os.path.join(self.work, "drv-%d.json" % len(os.listdir(self.work)))
-        cmd = [self.vdrv()] + args + ["-out", outp]
+        cmd = [binary or self.vdrv()] + args + ["-out", outp]
         t = time.time()
         try:
             p = subprocess.run(cmd, cwd=self.work, env=GOENV, capture_output=True, text=True, timeout=timeout,
